@@ -298,7 +298,9 @@ def eigen(X, P, NSIG=None, method='music', threshold=None, NFFT=default_NFFT,
         if method == 'music':
             PSD = PSD + abs(Z)**2.
         elif method == 'ev' :
-            PSD = PSD + abs(Z)**2. / S[I]
+            # a noise singular value can be exactly zero (noiseless, exactly
+            # rank-deficient data): do not divide by zero
+            PSD = PSD + abs(Z)**2. / max(S[I], np.finfo(float).eps * S[0])
 
     PSD = 1./PSD
 
